@@ -406,10 +406,15 @@ func (ctrl *Controller[Input, Output]) cleanupOutputs(
 	outputMetadata resource.Metadata,
 ) error {
 	// clean up outputs
-	outputItems, err := safe.ReaderList[Output](ctx, r, outputMetadata)
+	// list the outputs bypassing the cache: the cache might lag behind the controller's own writes, and an output
+	// missing from the list would be left orphaned (its creation doesn't wake the controller up), or the input finalizer
+	// would be released while the output still exists
+	outputList, err := r.ListUncached(ctx, outputMetadata)
 	if err != nil {
 		return fmt.Errorf("error listing output resources: %w", err)
 	}
+
+	outputItems := safe.NewList[Output](outputList)
 
 	for out := range outputItems.All() {
 		// output not owned by this controller, skip it
@@ -467,24 +472,7 @@ func (ctrl *Controller[Input, Output]) cleanupOutputs(
 	// clean up tearingDownInputs finalizers, as matching outputs are gone now
 	//
 	// if some output failed to be removed in the loop above, it is removed from the map
-	for outID, inMd := range runState.removeInputFinalizers {
-		// the list of the outputs above might come from the cache which lags behind the controller's own writes,
-		// make sure the output is really gone before releasing the input
-		out, getErr := r.GetUncached(ctx, resource.NewMetadata(outputMetadata.Namespace(), outputMetadata.Type(), outID, resource.VersionUndefined))
-		if getErr == nil {
-			if out.Metadata().Owner() == ctrl.Name() {
-				runState.multiErr = multierror.Append(runState.multiErr, fmt.Errorf("output %s still exists, keeping finalizer on %s", out.Metadata(), inMd))
-			}
-
-			continue
-		}
-
-		if !state.IsNotFoundError(getErr) {
-			runState.multiErr = multierror.Append(runState.multiErr, getErr)
-
-			continue
-		}
-
+	for _, inMd := range runState.removeInputFinalizers {
 		if err = r.RemoveFinalizer(ctx, inMd, ctrl.Name()); err != nil {
 			runState.multiErr = multierror.Append(runState.multiErr, err)
 		} else {
